@@ -179,3 +179,19 @@ Theorem C01_generic_wf : forall (T : Type) (K : kops T) (p : profile) (meth : me
   \/ generic_with K p meth s d m n = Panic PNaN.
 Proof. exact generic_total_wf. Qed.
 Print Assumptions C01_generic_wf.
+
+(* ---- "Hence every label in [0, 2n-2) is consumed exactly once, the last step has size n" ----
+   consequences of well-formedness alone (Proofs/ClusterSizes.v), hence of every theorem above *)
+Require Import KV.Proofs.DendUnique KV.Proofs.ClusterSizes.
+
+Theorem C01_every_label_consumed_once : forall (T : Type) (n : nat) (D : list (step T)), wf_dend n D -> 2 <= n ->
+  NoDup (flat_map (fun t => [s_c1 t; s_c2 t]) D)
+  /\ forall l, l < 2 * n - 2 <-> In l (flat_map (fun t => [s_c1 t; s_c2 t]) D).
+Proof. exact every_label_consumed_once. Qed.
+Print Assumptions C01_every_label_consumed_once.
+
+Theorem C01_last_step_has_size_n : forall (T : Type) (n : nat) (D : list (step T)), wf_dend n D -> 2 <= n ->
+  forall t, nth_error D (n - 2) = Some t ->
+  (forall x, x < n -> labi n D (n - 1) x = 2 * n - 2) /\ s_size t = n.
+Proof. exact last_step_size. Qed.
+Print Assumptions C01_last_step_has_size_n.
